@@ -119,10 +119,13 @@ def check_c08(run):
     sid = len(sessions)
     for i in range(300 if quick else 6000):
         ops = []
-        style = rng.randrange(3)
+        style = rng.randrange(4)
         for j in range(rng.randint(2, 12)):
             k = rng.choice(["full", "incr", "incr", "incr", "remove", "remove", "bad"])
-            sal = lambda: [rng.randint(-1, 1), rng.randint(-10, 10), rng.randint(-10**9, 10**9)][style]
+            # style 3: saliences at the ends of the 64-bit range (differences that do not fit in 64 bits)
+            sal = lambda: [rng.randint(-1, 1), rng.randint(-10, 10), rng.randint(-10**9, 10**9),
+                           rng.choice([9223372036854775807, -9223372036854775807, 9000000000000000000, -9000000000000000000,
+                                       4611686018427387904, -4611686018427387905, 0, 1, -1])][style]
             if k in ("full", "incr"):
                 ns = rng.sample(names, rng.randint(1, 4))
                 ops.append({"kind": k, "rules": [{"name": n, "sal": sal()} for n in ns]})
